@@ -217,7 +217,22 @@ func (d *dhcpRun) history() {
 	bc := netip.MustParseAddr("255.255.255.255")
 	rx := newRx()
 	restarted := false
+	// capture generation per client: counts the changes of its capture state as the session reports it (Capture/Release calls,
+	// the flag lost with a purged MAC entry, a new session after a process restart); the C18 renewal rule below only speaks about
+	// clients whose state did not change since the ACK
+	capGen := map[*dclient]int{}
+	capLast := map[*dclient]bool{}
+	ackGen := map[*dclient]int{}
+	seeCaps := func() {
+		for _, x := range cls {
+			if now := s.IsCaptured(net.HardwareAddr(x.mac[:])); now != capLast[x] {
+				capLast[x] = now
+				capGen[x]++
+			}
+		}
+	}
 	for step, o := range d.ops {
+		seeCaps()
 		cl := cls[o.C%len(cls)]
 		// "the client's capture state at that moment" is what the session reports: the flag lives in the MAC entry and is
 		// dropped with it when the MAC's last host is re-bound or purged (DESIGN Corrections)
@@ -329,6 +344,10 @@ func (d *dhcpRun) history() {
 				if s, err = mon.NewSession(rec, nic, 0, 0, 0); err != nil {
 					panic("HARNESS BUG: " + err.Error())
 				}
+				for _, x := range cls {
+					capGen[x]++ // the new process starts without capture flags (and loads every lease accordingly)
+					capLast[x] = false
+				}
 			}
 			if o.P >= 2 {
 				// ... and comes back with another DNS server in its configuration
@@ -377,7 +396,7 @@ func (d *dhcpRun) history() {
 				if o.K == "reboot" {
 					a, _ = req.OptIP4(50)
 				}
-				if holder, capt, ok := m.HeldInfo(a); ok && holder == req.ClientID() && capt == cl.captured {
+				if holder, capt, ok := m.HeldInfo(a); ok && holder == req.ClientID() && capt == cl.captured && ackGen[cl] == capGen[cl] {
 					mustAck = fmt.Sprintf("%v by client %x", a, holder)
 				}
 			}
@@ -447,6 +466,7 @@ func (d *dhcpRun) history() {
 			case refdec.DHCPAck:
 				cl.acked = rep.YI
 				ackedNow = true
+				ackGen[cl] = capGen[cl]
 				d.sawAck = true
 				if d.afterAck != nil {
 					d.afterAck(step, file, m)
@@ -455,6 +475,7 @@ func (d *dhcpRun) history() {
 				cl.acked = netip.Addr{}
 			}
 		}
+		seeCaps()
 		if req != nil && replies == 0 {
 			m.SilentStep()
 		}
